@@ -327,6 +327,22 @@ impl<'a> Parser<'a> {
         if let Some(op) = compound_op {
             self.advance(); // consume the compound operator
             let rhs = self.expression()?;
+            // `target op= rhs` means `target = target op (rhs)`: once the right-hand side becomes an operand it
+            // has to stay grouped, otherwise `p.x *= a + b` turns into `p.x = p.x * a + b`.
+            let rhs = match rhs.node {
+                Expr::Binary(..)
+                | Expr::Unary(..)
+                | Expr::Range { .. }
+                | Expr::Await(..)
+                | Expr::If(..)
+                | Expr::Match(..)
+                | Expr::Closure(..)
+                | Expr::Yield(..) => {
+                    let span = rhs.span;
+                    Spanned::new(Expr::Paren(Box::new(rhs)), span)
+                }
+                _ => rhs,
+            };
             match expr.node {
                 Expr::Field(object, field) => {
                     // Convert field += rhs to field = field + rhs
